@@ -276,8 +276,10 @@ def run_world(sc, observe=0, snapshot=True, setup=None, mutate_constraints=True,
     if sc["tapes"].get("choice") != "real":   # 'real': seam off, the library's own random.choice under random.seed
         _random.choice = choice
     _CUR[0] = ctx
+    import contextlib
+    sink = contextlib.redirect_stdout(io.StringIO()) if sc["sim"].get("verbose") else contextlib.nullcontext()
     try:
-        with warnings.catch_warnings(record=True) as wlist:
+        with sink, warnings.catch_warnings(record=True) as wlist:
             warnings.simplefilter("always")
             party = Party(sc, ctx)
             tr.party = party
